@@ -115,12 +115,27 @@ def run(ctx):
             ntr = min(ntr, len(pool))
             names = rng.sample(pool, ntr)
             ctx.count('mixture: no gas active')
-        regime = rng.choice(['low', 'low', 'high', 'exact1', 'over'])
+        regime = rng.choice(['low', 'low', 'high', 'exact1', 'over', 'over_some'])
+        if i % 12 == 5:
+            regime = 'over_some'         # every run: totals above one in some layers only
         lv = np.logspace(rng.uniform(-4, 1), rng.uniform(4, 7), n + 1)[::-1]
         P = lv[:-1] * np.sqrt(lv[1:] / lv[:-1])
         T = np.array([rng.uniform(300, 2500) for _ in range(n)])
         gases = []
-        if regime == 'exact1' and ntr >= 1:
+        if regime == 'over_some':
+            # a constant gas plus a per-layer profile that pushes the total above one in some layers and not in others
+            from taurex.data.profiles.chemistry import ConstantGas
+            from taurex.data.profiles.chemistry.gas.arraygas import ArrayGas
+            pool = [t for t in TRACES if t not in fills]
+            names = rng.sample(pool, 2)
+            ntr = 2
+            base = rng.uniform(0.1, 0.4)
+            arr = np.array([rng.choice([rng.uniform(1e-6, 0.3), rng.uniform(0.95, 1.5)]) for _ in range(n)])
+            arr[rng.randrange(n)] = rng.uniform(0.95, 1.5)
+            arr[(int(np.argmax(arr)) + 1) % n] = rng.uniform(1e-6, 0.3) if n >= 2 else arr[0]
+            gases.append(('constant', ConstantGas(names[0], mix_ratio=base), dict(v=base), names[0]))
+            gases.append(('array', ArrayGas(names[1], mix_ratio_array=arr), dict(arr=arr), names[1]))
+        elif regime == 'exact1' and ntr >= 1:
             from taurex.data.profiles.chemistry import ConstantGas
             parts = [2.0 ** -(k + 1) for k in range(ntr)]
             parts[-1] *= 2     # 1/2 + 1/4 + ... + 2/2^k = 1 exactly
